@@ -21,6 +21,15 @@ package componentcfg
 //@   requires p != nil
 //@   ensures s == rawOf(p.Component, p.RunType, p.RoleName, p.EntryKey)
 
+// Path prints the query back exactly as Raw does (the key part verbatim: a doubled or trailing separator in an entry
+// key is part of the key)
+//@ func (p *Query) Path() (s string)
+//@   property C20
+//@   opt strings=uf
+//@   pure
+//@   requires p != nil
+//@   ensures s == rawOf(p.Component, p.RunType, p.RoleName, p.EntryKey)
+
 //@ func (p *Query) AbsoluteRaw() (s string)
 //@   property C20
 //@   opt strings=uf
